@@ -120,7 +120,7 @@ func (p *Program) verifyFunc(fn *ssa.Function, ct *Contract, sweepOnly bool) (re
 	ex.run(fr, st.clone())
 	// returns
 	sort.SliceStable(fr.rets, func(i, j int) bool { return fr.rets[i].pos < fr.rets[j].pos })
-	if ct != nil && len(fr.rets)*(len(ct.Ensures)+1) > 48 && len(fr.rets) > 1 {
+	if ct != nil && len(fr.rets)*(len(ct.Ensures)+1) > 48 && len(fr.rets) > 1 && ct.Opts["perreturn"] == "" {
 		// many exits: check each postcondition once over the joined exit state
 		var ins []edgeState
 		for _, r := range fr.rets {
@@ -243,6 +243,10 @@ func (ex *Exec) checkReturn(fr *Frame, ct *Contract, r retInfo, ord int) {
 		}
 		g := ex.specBool(fr, st, e)
 		name := fmt.Sprintf("%s#%s@ret%d", key, e.Label, ord)
+		if ct.Opts["perreturn"] != "" {
+			// each return site is its own obligation class (sites are claimed individually)
+			name = fmt.Sprintf("%s#%s.site%d", key, e.Label, ord)
+		}
 		if e.Behav != "" {
 			name = fmt.Sprintf("%s#%s.%s@ret%d", key, e.Behav, e.Label, ord)
 			// the behaviour's assumptions are about the entry state
